@@ -63,6 +63,13 @@ def run_case(case):
     if buf == 'default':
         sizer = q.DollarWeightedCashBufferedOrderSizer(b, 'p', dh)
         buf = 0.05
+    elif case.get('via_qts'):
+        # the way a session builds it: QuantTradingSystem(..., long_only=True, cash_buffer_percentage=b)
+        qts = q.QuantTradingSystem(q.StaticUniverse(sorted(weights)), b, 'p', dh, None, long_only=True,
+                                   cash_buffer_percentage=buf, submit_orders=False)
+        sizer = qts.portfolio_construction_model.order_sizer
+        if not isinstance(sizer, q.DollarWeightedCashBufferedOrderSizer):
+            raise Violation('long-only trading system built a %s' % type(sizer).__name__)
     else:
         sizer = q.DollarWeightedCashBufferedOrderSizer(b, 'p', dh, cash_buffer_percentage=buf)
     E = F(b.get_portfolio_total_equity('p'))
@@ -130,6 +137,8 @@ def run_case(case):
             cls.append('equity_with_positions')
         if case['buffer'] == 'default':
             cls.append('default_buffer')
+        if case.get('via_qts') and case['buffer'] != 'default':
+            cls.append('built_by_trading_system')
         if case['fee'] == 'default':
             cls.append('default_fee_model')
         if f > 0:
@@ -202,6 +211,7 @@ def cases(draw):
             case['hold_price'] = draw(price)
     if kind in ('mixed', 'ints') and draw(st.sampled_from([False, False, True])):
         case['more_weights'] = [{a: _weight(draw) for a in assets} for _ in range(draw(st.integers(1, 2)))]
+    case['via_qts'] = draw(st.sampled_from([False, False, True]))
     inv = draw(st.sampled_from([None] * 12 + ['neg_weight', 'buffer_low', 'buffer_high', 'nan_price']))
     if inv == 'neg_weight':
         a = draw(st.sampled_from(assets))
